@@ -27,8 +27,6 @@ M("smooth-quad-no-reflect-chain", ["C01", "C17"], "T after T uses current point"
   ("            control1 = self._smooth_point_of(QuadraticBezier)", "            control1 = self._smooth_point_of(QuadraticBezier) if not self._segments[-1].smooth else self.current_point"))
 M("move-extra-pairs-as-moves", ["C01"], "extra pairs after M become moves",
   ("                while self._more():\n                    coord = self._coord()\n                    self.parser.line(coord, relative=False)", "                while self._more():\n                    coord = self._coord()\n                    self.parser.move(coord, relative=False)"))
-M("drop-validate-close", ["C16"], "append no longer re-targets a close",
-  ("        if isinstance(value, Close):\n            self._validate_close(index + 1)\n\n    def insert", "\n    def insert"))
 M("copy-drops-relative", ["C17", "C07"], "Linear.__copy__ loses the relative flag",
   ("        return self.__class__(self.start, self.end, relative=self.relative)", "        return self.__class__(self.start, self.end)"))
 M("smooth-point-after-copy", ["C17"], "QuadraticBezier copy loses smooth flag",
@@ -152,5 +150,14 @@ M("subdivision-error-halved-each-level", ["C15"], "stop criterion compares again
 M("calc-lengths-skips-last", ["C15"], "relative lengths computed over all but the last segment", ("        lengths = [each.length(error=error, min_depth=min_depth) for each in segments]\n        self._length_error = error", "        lengths = [each.length(error=error, min_depth=min_depth) for each in segments[:-1]] + [0]\n        self._length_error = error"))
 M("point-segment-strict-compare", ["C15"], "point(t): first segment whose end is strictly greater", ("            if segment_end >= position:\n                # This is the segment! How far in on the segment is the point?", "            if segment_end > position + 1e-3:\n                # This is the segment! How far in on the segment is the point?"))
 M("point-fallthrough-start", ["C15"], "fall-through of point(t) returns the last segment's start again", ("        else:\n            # The fractions summed to slightly less than the position: it is the end of the last segment.\n            segment_pos = 1.0\n", ""))
-M("reverse-keeps-cache", ["C15", "C16"], "reverse no longer invalidates the cached lengths", ("        self._segments[0].start = prepoint\n        self._length = None\n        self._lengths = None\n        return self", "        self._segments[0].start = prepoint\n        return self"))
+M("reverse-keeps-cache", ["C15"], "reverse no longer invalidates the cached lengths", ("        self._segments[0].start = prepoint\n        self._length = None\n        self._lengths = None\n        return self", "        self._segments[0].start = prepoint\n        return self"))
 M("close-length-zero", ["C15"], "Close contributes no length", ("    def length(self, error=None, min_depth=None):\n        if self.start is not None and self.end is not None:\n            return Point.distance(self.end, self.start)", "    def length(self, error=None, min_depth=None):\n        if isinstance(self, Close):\n            return 0\n        if self.start is not None and self.end is not None:\n            return Point.distance(self.end, self.start)"))
+
+# ---- reverse (C16) ---------------------------------------------------------------------------------------
+M("arc-reverse-keeps-sweep", ["C16"], "Arc.reverse does not negate the sweep", ("    def reverse(self):\n        PathSegment.reverse(self)\n        self.sweep = -self.sweep", "    def reverse(self):\n        PathSegment.reverse(self)"))
+M("cubic-reverse-keeps-controls", ["C16"], "CubicBezier.reverse does not swap its controls", ("        c2 = self.control2\n        self.control2 = self.control1\n        self.control1 = c2", "        c2 = self.control2"))
+M("subpath-reverse-skips-middle", ["C16"], "segment swap loop stops one short", ("        while s <= e:\n            start_segment = segments[s]", "        while s < e:\n            start_segment = segments[s]"))
+M("subpath-reverse-close-end", ["C16"], "closed subpath: close not re-targeted at the moved start", ("            if last.end != self[0].end:\n                last.end = Point(self[0].end)", "            pass"))
+M("path-reverse-subpath-order", ["C16"], "reversed subpaths re-assembled in the original order", ("        for subpath in reversed(subpaths):\n            p += subpath", "        for subpath in subpaths:\n            p += subpath"))
+M("as-subpaths-close-window", ["C16"], "subpath window after a close starts one late", ("            if isinstance(seg, Close):\n                yield Subpath(self, start, current)\n                start = current + 1", "            if isinstance(seg, Close):\n                yield Subpath(self, start, current)\n                start = current + 2"))
+M("reverse-prefer-second-dropped", ["C16"], "view reversal re-links the neighbour with the wrong authority", ("        self._path._validate_connection(start - 1, prefer_second=True)", "        self._path._validate_connection(start - 1)"))
